@@ -39,6 +39,13 @@ def words(exclude, max_size=4, uni=True):
     )
 
 
+def words_with_inner_space(exclude, max_size=3):
+    """Tokens with a non-ASCII space character strictly inside (NBSP, ideographic space, em space):
+    not a delimiter of the trn format, which separates tokens by the ASCII blank only."""
+    w = words(exclude, max_size=max_size, uni=False)
+    return st.tuples(w, st.sampled_from(["\u00a0", "\u3000", "\u2003"]), w).map(lambda t: t[0] + t[1] + t[2])
+
+
 FILE_ID_ALPHABET = list("abcdefghijklmnopqrstuvwxyzABCXYZ0123456789_-+=,.@%")
 
 
